@@ -800,3 +800,197 @@ Proof.
     exists [], (l ++ w2 ++ s3). split; [reflexivity|]. rewrite Hf. subst r. simpl.
     apply tc_cons'; assumption.
 Qed.
+
+(* ================================================================ lifting to the whole input *)
+
+(* token by token: same type and lexeme, blank tails, no separator between two tokens removed *)
+Fixpoint resp_body (ts ts' : list token) : Prop :=
+  match ts, ts' with
+  | [], [] => True
+  | t :: r, t' :: r' =>
+      tk_type t' = tk_type t /\ tk_lexeme t' = tk_lexeme t /\ all_space (tk_tail t') = true /\
+      (r <> [] -> tk_tail t <> [] -> tk_tail t' <> []) /\ resp_body r r'
+  | _, _ => False
+  end.
+
+Lemma body_text_cons t r : body_text (t :: r) = tk_lexeme t ++ tk_tail t ++ body_text r.
+Proof. unfold body_text. simpl. rewrite <- app_assoc. reflexivity. Qed.
+
+Lemma la_gap w w' s2 x' :
+  la s2 x' = true -> (w' = [] -> w = [] \/ x' = []) -> all_space w' = true ->
+  la (w ++ s2) (w' ++ x') = true.
+Proof.
+  intros H Hw Hsp. destruct w' as [|c w1].
+  - destruct (Hw eq_refl) as [E|E]; subst; simpl; [exact H|apply (la_nil_r (w ++ s2))].
+  - simpl. simpl in Hsp. apply andb_true_iff in Hsp. destruct Hsp as [Hc _]. rewrite Hc. reflexivity.
+Qed.
+
+Lemma resp_body_nil_l ts' : resp_body [] ts' -> ts' = [].
+Proof. destruct ts'; [reflexivity|contradiction]. Qed.
+
+Lemma gap_cases (t t' : token) (r r' : list token) :
+  (r <> [] -> tk_tail t <> [] -> tk_tail t' <> []) -> resp_body r r' ->
+  tk_tail t' = [] -> tk_tail t = [] \/ body_text r' = [].
+Proof.
+  intros Hsep Hr Hw'. destruct (tk_tail t) eqn:Et; [left; reflexivity|right].
+  destruct r as [|t2 r2]; [rewrite (resp_body_nil_l _ Hr); reflexivity|].
+  exfalso. apply Hsep; [discriminate|discriminate|exact Hw'].
+Qed.
+
+Lemma chain_la : forall rp s ts, tchain rp s ts -> forall ts', resp_body ts ts' -> la s (body_text ts') = true.
+Proof.
+  induction 1 as [rp|rp t s2 ts Hone Hw Hch IH]; intros ts' Hr.
+  - rewrite (resp_body_nil_l _ Hr). reflexivity.
+  - destruct ts' as [|t' r']; [contradiction|]. simpl in Hr. destruct Hr as [Hk [Hl [Hw' [Hsep Hr]]]].
+    rewrite body_text_cons, Hl. apply la_app. apply la_gap; [apply IH; exact Hr| |exact Hw'].
+    apply (gap_cases t t' ts r'); assumption.
+Qed.
+
+Lemma body_nostart rp s ts ts' : tchain rp s ts -> resp_body ts ts' -> starts_with_space (body_text ts') = false.
+Proof.
+  intros Hch Hr. destruct Hch as [rp|rp t s2 ts Hone Hw Hch].
+  - rewrite (resp_body_nil_l _ Hr). reflexivity.
+  - destruct ts' as [|t' r']; [contradiction|]. simpl in Hr. destruct Hr as [_ [Hl _]].
+    rewrite body_text_cons, Hl.
+    destruct (lex_one_spec _ _ _ _ _ Hone) as [_ [Hne [_ Hns]]].
+    destruct (tk_lexeme t) as [|c l1]; [congruence|]. apply Hns. discriminate.
+Qed.
+
+Lemma lex_raw_step f rp pos s k l r : lex_one rp s = Some (k, l, r) ->
+  lex_raw (S f) rp pos s =
+  (let '(ts, e) := lex_raw f (rev l ++ rp) (pos + length l) r in (mkRaw k l pos :: ts, e)).
+Proof.
+  intros H. destruct s as [|c s1]; [unfold lex_one in H; discriminate|]. simpl. rewrite H. reflexivity.
+Qed.
+
+Lemma lift : forall rp s ts, tchain rp s ts -> forall ts' rp' fuel pos, resp_body ts ts' ->
+  (forall x, lex_term rp s = Some x -> safe rp /\ safe rp') -> length (body_text ts') < fuel ->
+  exists raws', lex_raw fuel rp' pos (body_text ts') = (raws', None) /\ raw_keys raws' = map tok_key ts.
+Proof.
+  induction 1 as [rp|rp t s2 ts Hone Hw Hch IH]; intros ts' rp' fuel pos Hr Hsafe Hlen.
+  - rewrite (resp_body_nil_l _ Hr). exists []. destruct fuel; simpl; auto.
+  - destruct ts' as [|t' r']; [contradiction|]. simpl in Hr. destruct Hr as [Hk [Hl [Hw' [Hsep Hr]]]].
+    pose proof (gap_cases t t' ts r' Hsep Hr) as Hgap.
+    rewrite body_text_cons in *. rewrite Hl in *.
+    destruct t as [k l p h w]. destruct t' as [k' l' p' h' w']. simpl in *. clear Hk Hl k' l' p' h'.
+    destruct fuel as [|f]; [lia|].
+    assert (Hlne : l <> []) by (destruct (lex_one_spec _ _ _ _ _ Hone) as [_ [Hne _]]; exact Hne).
+    assert (Hla : la (w ++ s2) (w' ++ body_text r') = true).
+    { apply la_gap; [eapply chain_la; eassumption|exact Hgap|exact Hw']. }
+    assert (Hesc : esc_ok (w ++ s2) = true).
+    { destruct w as [|c w1].
+      - simpl. inversion Hch; [reflexivity|]. eapply lex_one_esc_ok; eassumption.
+      - simpl. simpl in Hw. apply andb_true_iff in Hw. destruct Hw as [Hc _].
+        rewrite (space_neq _ _ Hc bslash_not_space). reflexivity. }
+    assert (Hone' : lex_one rp' (l ++ w' ++ body_text r') = Some (RTok k, l, w' ++ body_text r')).
+    { apply lex_one_respace with (rp := rp) (r := w ++ s2); auto.
+      intros Hnn. destruct (lex_term rp (l ++ w ++ s2)) as [x|] eqn:E; [|congruence].
+      apply (Hsafe x). reflexivity. }
+    rewrite (lex_raw_step _ _ _ _ _ _ _ Hone').
+    assert (Hl1 : 0 < length l) by (destruct l; [congruence|simpl; lia]).
+    rewrite !app_length in Hlen.
+    (* the look-behind invariant at the next token *)
+    assert (Hs1 : forall x, lex_term (rev w ++ rev l ++ rp) s2 = Some x -> safe (rev w ++ rev l ++ rp)).
+    { intros x Hx. destruct w as [|c w1].
+      - simpl in *. exact (adjacent_term_safe rp _ l s2 k x Hone Hx rp).
+      - apply safe_rev_space; [discriminate|exact Hw]. }
+    destruct w' as [|c' w1'].
+    + (* the next token follows directly *)
+      simpl app.
+      destruct (IH r' (rev l ++ rp') f (pos + length l) Hr) as [raws1 [Hraw1 Hkeys1]].
+      * intros x Hx. split; [exact (Hs1 x Hx)|].
+        destruct (Hgap eq_refl) as [E|E].
+        -- subst w. simpl in *. exact (adjacent_term_safe rp _ l s2 k x Hone Hx rp').
+        -- exfalso. inversion Hch as [|rp1 t2 s3 ts2 Hone2 Hw2 Hch2]; subst.
+           ++ unfold lex_term in Hx. discriminate.
+           ++ destruct r' as [|t2' r2']; [contradiction|]. rewrite body_text_cons in E.
+              simpl in Hr. destruct Hr as [_ [Hl2 _]]. rewrite Hl2 in E.
+              destruct (lex_one_spec _ _ _ _ _ Hone2) as [_ [Hne2 _]].
+              destruct (tk_lexeme t2); [congruence|discriminate].
+      * simpl in Hlen. lia.
+      * simpl. rewrite Hraw1. eexists. split; [reflexivity|]. simpl. rewrite Hkeys1. reflexivity.
+    + (* a separator, then the next token *)
+      destruct f as [|f1]; [simpl in Hlen; lia|].
+      rewrite (lex_raw_step f1 _ _ _ RSep (c' :: w1') (body_text r')).
+      2:{ apply lex_one_sep; [discriminate|exact Hw'|]. eapply body_nostart; eassumption. }
+      destruct (IH r' (rev (c' :: w1') ++ rev l ++ rp') f1 (pos + length l + length (c' :: w1')) Hr)
+        as [raws1 [Hraw1 Hkeys1]].
+      * intros x Hx. split; [exact (Hs1 x Hx)|]. apply safe_rev_space; [discriminate|exact Hw'].
+      * simpl in Hlen. lia.
+      * rewrite Hraw1. eexists. split; [reflexivity|]. simpl. rewrite Hkeys1. reflexivity.
+Qed.
+
+(* ---- through HeadTailLexer: keys ignore heads and tails *)
+
+Lemma fold_keys : forall raws p racc,
+  map tok_key (head_tail_fold raws p racc) = map tok_key (rev racc) ++ raw_keys raws.
+Proof.
+  induction raws as [|r raws IH]; intros p racc; simpl.
+  - rewrite app_nil_r. reflexivity.
+  - destruct (rk_kind r).
+    + destruct (Nat.eqb (rk_pos r) 0); [apply IH|].
+      destruct racc as [|lastt racc']; [apply IH|]. rewrite IH. simpl. rewrite !map_app. reflexivity.
+    + rewrite IH. simpl. rewrite map_app, <- app_assoc. reflexivity.
+Qed.
+
+Lemma resp_body_intro : forall ts ts',
+  map tok_key ts' = map tok_key ts -> forallb (fun u => all_space (tk_tail u)) ts' = true ->
+  seps_kept ts ts' = true -> resp_body ts ts'.
+Proof.
+  induction ts as [|t r IH]; intros [|t' r'] Hk Hw Hs; simpl in *; try discriminate; [exact I|].
+  injection Hk as Hk1 Hk2 Hk3. apply andb_true_iff in Hw. destruct Hw as [Hw1 Hw2].
+  apply andb_true_iff in Hs. destruct Hs as [Hs1 Hs2].
+  repeat split; auto.
+  intros Hr Ht Ht'. destruct r; [congruence|]. destruct (tk_tail t); [congruence|].
+  rewrite Ht' in Hs1. discriminate.
+Qed.
+
+Lemma render_body : forall r, forallb (fun u => is_nil (tk_head u) && all_space (tk_tail u)) r = true ->
+  render r = body_text r /\ forallb (fun u => all_space (tk_tail u)) r = true.
+Proof.
+  induction r as [|t r IH]; simpl; intros H; [auto|].
+  apply andb_true_iff in H. destruct H as [H1 H2]. apply andb_true_iff in H1. destruct H1 as [Hh Ht].
+  destruct (IH H2) as [E1 E2]. rewrite Ht, E2. split; [|reflexivity].
+  change (render (t :: r)) with (tok_text t ++ render r). rewrite body_text_cons, E1.
+  unfold tok_text. destruct (tk_head t); [|discriminate]. simpl. rewrite <- app_assoc. reflexivity.
+Qed.
+
+Lemma safe_rev_space' w : all_space w = true -> safe (rev w).
+Proof.
+  intros H. destruct w as [|c w1]; [exact safe_nil|].
+  rewrite <- (app_nil_r (rev (c :: w1))). apply safe_rev_space; [discriminate|exact H].
+Qed.
+
+(* L-respace *)
+Theorem L_respace_main s toks toks' :
+  lex s = (toks, None) -> toks <> [] ->
+  map tok_key toks' = map tok_key toks -> layout_ws toks' = true -> seps_kept toks toks' = true ->
+  map tok_key (fst (lex (render toks'))) = map tok_key toks /\ snd (lex (render toks')) = None.
+Proof.
+  intros Hlex Hne Hkeys Hlay Hseps.
+  destruct (lex_tchain _ _ Hlex Hne) as [h [s1 [Hh Hch]]].
+  destruct toks' as [|t1 r1]; [destruct toks; [congruence|discriminate]|].
+  simpl in Hlay. apply andb_true_iff in Hlay. destruct Hlay as [Hlay Hrest].
+  apply andb_true_iff in Hlay. destruct Hlay as [Hhead Htail1].
+  destruct (render_body _ Hrest) as [Eren Htails].
+  assert (Hr : resp_body toks (t1 :: r1)).
+  { apply resp_body_intro; [exact Hkeys| |exact Hseps]. simpl. rewrite Htail1, Htails. reflexivity. }
+  assert (Etext : render (t1 :: r1) = tk_head t1 ++ body_text (t1 :: r1)).
+  { change (render (t1 :: r1)) with (tok_text t1 ++ render r1). rewrite body_text_cons, Eren.
+    unfold tok_text. rewrite <- !app_assoc. reflexivity. }
+  rewrite Etext. unfold lex.
+  destruct (tk_head t1) as [|c hh] eqn:Eh.
+  - simpl app.
+    destruct (lift _ _ _ Hch (t1 :: r1) [] (S (length (body_text (t1 :: r1)))) 0 Hr) as [raws' [Hraw Hk]].
+    + intros x _. split; [apply safe_rev_space'; exact Hh|exact safe_nil].
+    + lia.
+    + rewrite Hraw. simpl. rewrite fold_keys. simpl. split; [exact Hk|reflexivity].
+  - rewrite (lex_raw_step _ _ _ _ RSep (c :: hh) (body_text (t1 :: r1))).
+    2:{ apply lex_one_sep; [discriminate|exact Hhead|]. eapply body_nostart; eassumption. }
+    destruct (lift _ _ _ Hch (t1 :: r1) (rev (c :: hh) ++ []) (length ((c :: hh) ++ body_text (t1 :: r1)))
+                (0 + length (c :: hh)) Hr) as [raws' [Hraw Hk]].
+    + intros x _. split; [apply safe_rev_space'; exact Hh|].
+      apply safe_rev_space; [discriminate|exact Hhead].
+    + rewrite app_length. simpl. lia.
+    + rewrite Hraw. simpl. rewrite fold_keys. simpl. split; [exact Hk|reflexivity].
+Qed.
